@@ -720,7 +720,7 @@ pub fn run() {
     ctx.set("traces_validated_against_impl", nodes_checked * (2 + FOLLOW.len() as u64));
     ctx.set("evaluations", nodes_checked * (2 + FOLLOW.len() as u64));
     ctx.set("distinct_nontrivial", stats.states);
-    ctx.set("rule", "BFS over histories of 17 events (load of 3 programs, 1/7/40/250 key-clock steps, step-mode toggle, key interrupt, continue, both resets, input and board setters), deduplicated on a digest of every observable + hook-visible latch; at every distinct node: cpu_reset vs power-on values and untouched parts (whole-Machine equality against a machine rebuilt from public setters for histories without hidden-register writes), master_reset additions, timer/UCR differentials, and load of 6 follow-up programs run in lock-step (300 edges) with a new machine");
+    ctx.set("rule", "BFS over histories of 18 events (load of 4 programs, 1/7/40/250 key-clock steps, step-mode toggle, key interrupt, continue, both resets, input and board setters), deduplicated on the derived Debug of the whole Machine; at every distinct node: cpu_reset vs power-on values and untouched parts (whole-Machine equality against a machine rebuilt from public setters for histories without hidden-register writes), master_reset additions, timer/UCR differentials, the board after a master reset answers a 16-operation probe sequence like a new board with the same inputs and raises no interrupt flags; both doors (Machine / raw_mut()) of every reset and wrapper agree; load_raw = master reset + bytes; load == master reset + image + limits and load of 11 follow-up programs (incl. NOSET and empty images) run in lock-step (300 edges) with a new machine; 16 long histories of 1 500 events");
     ctx.set("exhaustive", !stats.cap_hit);
     ctx.set("bounds", format!("history depth {}; {} distinct nodes checked", depth, nodes_checked));
     ctx.set("bfs_frontiers", Json::Arr(stats.frontier_sizes.iter().map(|n| Json::Int(*n as i64)).collect()));
